@@ -186,6 +186,36 @@ type c19SelfStructSlice []struct {
 	X    string             `@Ident`
 }
 
+type c19CycN []*c19CycN
+type c19CycA []c19CycB
+type c19CycB []*c19CycA
+
+type c19S32 struct {
+	A c19CycN `@@`
+}
+type c19S33 struct {
+	A c19CycA `@Ident*`
+}
+type c19S34 struct {
+	A *c19CycB `@@?`
+	B string   `@Ident`
+}
+
+// a stray token at the very start of a later field's tag
+type c19S35 struct {
+	A string `@Ident`
+	B string `) @String`
+}
+type c19S36 struct {
+	A []string `@Ident*`
+	B string   `+ @String`
+	C string   `@Int`
+}
+type c19S37 struct {
+	A string `parser:"@Ident"`
+	B string `parser:"] @String"`
+}
+
 type c19S26 struct {
 	A c19SelfSlice `@@`
 }
@@ -232,6 +262,13 @@ func c19ParseVal(lex *lexer.PeekingLexer) (c19Val, error) {
 		return nil, participle.NextMatch
 	}
 	return c19ValNum{N: lex.Next().Value}, nil
+}
+
+// c19StaticMustReject names the static cases that Build has to reject, and why.
+var c19StaticMustReject = map[string]string{
+	"stray ')' at the start of the second field's tag":                             "has an unmatched ')' where the second field's grammar starts",
+	"stray '+' at the start of the second field's tag after a complete repetition": "applies '+' to nothing at the start of the second field",
+	"stray ']' at the start of the second field's parser tag":                      "has an unmatched ']' where the second field's grammar starts",
 }
 
 func c19B[T any](opts ...participle.Option) func() error {
@@ -284,6 +321,12 @@ var c19StaticCases = []struct {
 	{"fields with an empty parser key and other tag keys", c19B[c19S31](), true},
 	{"right-recursive list whose item begins with optional terms", c19B[c19List](), true},
 	{"declaration with optional leading attributes, recursive through its body", c19B[c19Decl](), true},
+	{"@@ into a slice of pointers to itself (type N []*N)", c19B[c19S32](), false},
+	{"capture into mutually recursive slice types (type A []B; type B []*A)", c19B[c19S33](), false},
+	{"optional @@ into a pointer to a mutually recursive slice type", c19B[c19S34](), false},
+	{"stray ')' at the start of the second field's tag", c19B[c19S35](), false},
+	{"stray '+' at the start of the second field's tag after a complete repetition", c19B[c19S36](), false},
+	{"stray ']' at the start of the second field's parser tag", c19B[c19S37](), false},
 	{"union with a nil member", c19B[c19S23](participle.Union[c19Iface](c19M1{}, nil)), false},
 	{"Elide of an unknown token type", c19B[c19S11](participle.Elide("Nope")), false},
 	{"Map on an unknown token type", c19B[c19S11](participle.Upper("Nope")), false},
